@@ -19,6 +19,8 @@ type Evidence struct {
 	Queries      int
 	Sat, Unsat   int
 	Unknown      int
+	Restarts     int
+	Retries      int
 	PreHits      int
 	SolverSecs   float64
 	MaxQuery     float64
@@ -54,6 +56,8 @@ func (e *Evidence) addResult(r *JobResult, j *procJob) {
 	e.Sat += r.Sat
 	e.Unsat += r.Unsat
 	e.Unknown += r.Unknown
+	e.Restarts += r.Restarts
+	e.Retries += r.Retries
 	e.PreHits += r.PreHits
 	e.SolverSecs += r.SolverSecs
 	if r.MaxQuerySec > e.MaxQuery {
@@ -135,7 +139,7 @@ func (e *Evidence) write() {
 		"path_ends":                     e.PathEnds,
 		"harness_runs":                  e.Runs,
 		"per_entry":                     e.perEntry,
-		"queries":                       map[string]interface{}{"total": e.Queries, "sat": e.Sat, "unsat": e.Unsat, "unknown": e.Unknown, "answered_by_interval_presolver": e.PreHits},
+		"queries":                       map[string]interface{}{"total": e.Queries, "sat": e.Sat, "unsat": e.Unsat, "unknown": e.Unknown, "answered_by_interval_presolver": e.PreHits, "retried_with_longer_limit": e.Retries, "solver_process_restarts": e.Restarts},
 		"solver_time_s":                 round3(e.SolverSecs),
 		"max_query_s":                   round3(e.MaxQuery),
 		"max_loop_visits":               e.MaxVisit,
@@ -164,6 +168,6 @@ func (e *Evidence) write() {
 		"violations":  e.Violations,
 	}
 	b, _ := json.MarshalIndent(doc, "", " ")
-	os.MkdirAll(filepath.Join(verifRoot, "evidence"), 0755)
-	os.WriteFile(filepath.Join(verifRoot, "evidence", e.id+".json"), b, 0644)
+	os.MkdirAll(evidenceDir(), 0755)
+	os.WriteFile(filepath.Join(evidenceDir(), e.id+".json"), b, 0644)
 }
